@@ -278,7 +278,15 @@ class ProgramEntry:
     
     def _transform_linspace_commands(self, command_list: List[Command]) -> List[Command]:
         # all commands = Union[Increment, Set, LoopLabel, LoopJmp, Wait, Play]
-        trafos_by_channel_idx = list(self._channel_transformations().values())
+        # The channel index of a command counts the defined channels of the program: unused outputs (channel None) do
+        # not take part. (A dict keyed by channel id collapses all unused outputs into one entry at the position of the
+        # first one, which shifted the transformations of all later channels.)
+        trafos_by_channel_idx = [ChannelTransformation(amplitude, offset, trafo)
+                                 for ch, trafo, amplitude, offset in zip(self._channels,
+                                                                         self._voltage_transformations,
+                                                                         self._amplitudes,
+                                                                         self._offsets)
+                                 if ch is not None]
 
         for command in command_list:
             if isinstance(command, (LoopLabel, LoopJmp, Play, Wait)):
